@@ -50,7 +50,7 @@ ASSUMPTIONS = [
 # operands that reproduce the open findings (and past defects) on every run: (class, a, b, c, imm)
 CORPUS = [
     ("Addi", 5, 5, 0, 4095), ("Addi", 5, 6, 0, -1), ("Addi", 5, 6, 0, -2048), ("Addi", 5, 6, 0, 2047),
-    ("Ble", 5, 6, 0, 0), ("Bgt", 5, 6, 0, 0), ("Bleu", 31, 1, 0, 0),
+    ("Ble", 5, 6, 0, 0), ("Bgt", 5, 6, 0, 0), ("Bleu", 31, 1, 0, 0), ("Csrw", 3072, 0, 0, 0), ("Csrs", 768, 0, 0, 0),
     ("CAddi", 5, 5, 0, -1), ("CAddi", 5, 5, 0, -32), ("CAddi", 5, 5, 0, 31),
     ("CAndi", 8, 8, 0, -1), ("CAndi", 15, 15, 0, -32),
     ("CSlli", 5, 5, 0, 20), ("CSlli", 5, 5, 0, 31), ("CSlli", 5, 6, 0, 3),
@@ -197,11 +197,13 @@ def check_riscv(ctx):
 # --- validation of Spec.RV32 against llvm-mc -------------------------------------------------
 
 LLVM_ONLY = re.compile(
-    r"^(fence\.tso|fence\.i|fence .*unknown.*|wfi|sret|uret|dret|unimp|c\.unimp|sfence\.vma .*|c\.nop -?\d+"
+    r"^(fence\.tso|fence\.i|fence .*unknown.*|wfi|sret|uret|dret|c\.unimp|sfence\.vma .*|c\.nop -?\d+"
     r"|c\.lui x\d+, 0|c\.lwsp x0, .*|c\.addi4spn x\d+, x2, 0|c\.addi16sp x2, 0|c\.jr x0)$")
 
 
 def norm_llvm(l):
+    if l == "unimp":      # the assembler manual's name for csrrw x0, cycle, x0
+        return "csrrw x0, 3072, x0"
     m = re.fullmatch(r"jalr (x\d+), (-?\d+)\((x\d+)\)", l)
     if m:
         return f"jalr {m.group(1)}, {m.group(3)}, {m.group(2)}"
